@@ -2,6 +2,7 @@ package ring
 
 import (
 	"fmt"
+	"io"
 	"math"
 	"math/bits"
 
@@ -157,12 +158,12 @@ func (ts *TernarySampler) sampleProba(pol Poly, f func(a, b, c uint64) uint64) {
 		randomBytesCoeffs := make([]byte, N>>3)
 		randomBytesSign := make([]byte, N>>3)
 
-		if _, err := ts.prng.Read(randomBytesCoeffs); err != nil {
+		if _, err := io.ReadFull(ts.prng, randomBytesCoeffs); err != nil {
 			// Sanity check, this error should not happen.
 			panic(err)
 		}
 
-		if _, err := ts.prng.Read(randomBytesSign); err != nil {
+		if _, err := io.ReadFull(ts.prng, randomBytesSign); err != nil {
 			// Sanity check, this error should not happen.
 			panic(err)
 		}
@@ -185,7 +186,7 @@ func (ts *TernarySampler) sampleProba(pol Poly, f func(a, b, c uint64) uint64) {
 		pointer := uint8(0)
 		var bytePointer int
 
-		if _, err := ts.prng.Read(randomBytes); err != nil {
+		if _, err := io.ReadFull(ts.prng, randomBytes); err != nil {
 			// Sanity check, this error should not happen.
 			panic(err)
 		}
@@ -224,7 +225,7 @@ func (ts *TernarySampler) sampleSparse(pol Poly, f func(a, b, c uint64) uint64) 
 	randomBytes := make([]byte, (uint64(math.Ceil(float64(ts.hw) / 8.0)))) // We sample ceil(hw/8) bytes
 	pointer := uint8(0)
 
-	if _, err := ts.prng.Read(randomBytes); err != nil {
+	if _, err := io.ReadFull(ts.prng, randomBytes); err != nil {
 		// Sanity check, this error should not happen.
 		panic(err)
 	}
@@ -306,7 +307,7 @@ func (ts *TernarySampler) kysampling(prng sampling.PRNG, randomBytes []byte, poi
 
 						if bytePointer >= byteLength {
 							bytePointer = 0
-							if _, err := prng.Read(randomBytes); err != nil {
+							if _, err := io.ReadFull(prng, randomBytes); err != nil {
 								// Sanity check, this error should not happen.
 								panic(err)
 							}
@@ -335,7 +336,7 @@ func (ts *TernarySampler) kysampling(prng sampling.PRNG, randomBytes []byte, poi
 
 		if bytePointer >= byteLength {
 			bytePointer = 0
-			if _, err := prng.Read(randomBytes); err != nil {
+			if _, err := io.ReadFull(prng, randomBytes); err != nil {
 				// Sanity check, this error should not happen.
 				panic(err)
 			}
